@@ -538,6 +538,6 @@ fn insert_sorted_node(
 // Verification harnesses (compiled only by `cargo kani`; inert otherwise).
 #[cfg(kani)]
 #[allow(dead_code, unused_imports)]
-mod verif {
+pub(crate) mod verif {
     include!(concat!(env!("BTDHT_VERIF"), "/harness/lookup.rs"));
 }
